@@ -206,6 +206,27 @@ CLAIMS['C14'] = dict(
 
 NOT_YET = {}
 
+# Source ties (third session): kernels translated from the Python AST on every run (harness/gen_source.py ->
+# lean/EpsieModel/Generated/Source.lean) and proved equal to the hand-written model for all arguments.
+SOURCE_TIES = {
+ 'C01': 'EpsieProps/C01Source.lean: Chain._acceptance_ratio as translated = Chain.logAR/decision/accepted/ar, a uniform is consumed iff the decision is a draw.',
+ 'C03': 'EpsieProps/C03Source.lean: the hot-to-cold loop of swap_temperatures as translated = Swap.loop/Swap.sweep for every ladder length and uniform stream (loop invariant).',
+ 'C06': 'EpsieProps/C06Source.lean: Chain.clear and the scratch growth of BaseSampler.run as translated = Chain.clear / Chain.extendFor.',
+ 'C08': 'EpsieProps/C08Source.lean: BaseChain.__len__ and the index arithmetic / read set of Chain.__getitem__ as translated = Chain.len / Chain.getitem for every Python integer index.',
+ 'C09': 'EpsieProps/C09Source.lean + C09SourceApply.lean: sweep schedule, record and row indices, row count of the views, the row the annealer reads, and the apply block of swap_temperatures (one permutation for positions, stats, blobs, active sets; acceptance untouched; reset condition) as translated = the PTChain model.',
+ 'C13': 'EpsieProps/C13Source.lean: the five _update methods as translated (window guards 1<=dk<T resp. 1<dk<T, scalar recursions) = PropSt.inWindow and the Adapt model formulas; direction lemmas proved directly on the translated code.',
+ 'C15': 'EpsieProps/C15Source.lean: BaseProposal.nsteps/_call_jump/update/jump/logpdf as translated = PropSt.nsteps/callJump/update and the copy / contribute-0 behaviour when not due.',
+ 'C17': 'EpsieProps/C17Source.lean: the ladder recursion of DynamicalAnnealer.__call__ as translated = Ladder.anneal; every intermediate level object is written with the ladder entry, end points untouched.',
+ 'C18': 'EpsieProps/C18Source.lean: Chain.step as translated makes exactly one model evaluation and one proposal update, writes each scratch array once at index len, forced reject / accept / reject records = Chain.stepRec.',
+ 'C19': 'EpsieProps/C19Source.lean: _reset_adaptation as translated sets start_step = max(nsteps, 1) = PropSt.reset, so a full window follows.',
+}
+import os as _os
+for _pid, _t in SOURCE_TIES.items():
+    _mods = [f for f in _os.listdir(_os.path.join(HERE, 'lean', 'EpsieProps')) if f.startswith(_pid + 'Source')]
+    if _pid in CLAIMS and _mods:
+        CLAIMS[_pid]['text'] += ' Source tie (model regenerated from the code on every run by harness/gen_source.py): ' + _t
+        CLAIMS[_pid]['technique'] += ' + source translator (Python AST -> Lean definitions, tie theorems for all arguments re-checked on every run)'
+
 def main():
     props = [json.loads(l)['id'] for l in open(os.path.join(HERE, 'properties.jsonl'))]
     checks = []
